@@ -638,7 +638,8 @@ def gen_swarm(rng, mode, tier="quick"):
          "save": rng.choice([0, 0.5, 1]), "load_check": rng.choice([0, 0.5, 1]), "restart": rng.choice([0, 0.5, 1]),
          "save_crash": rng.choice([0, 0.3, 0.8]), "poser": rng.choice([0.5, 1, 2]) if mode != "preger" else 0,
          "bare_gate": rng.choice([0, 0.3]), "new_record": rng.choice([0, 0, 0.4, 1.0]) if mode != "poser" else 0,
-         "recreate": rng.choice([0, 0.5, 1.0]) if mode != "poser" else 0}
+         "recreate": rng.choice([0, 0.5, 1.0]) if mode != "poser" else 0,
+         "branch_copy": rng.choice([0, 0, 0.5]) if mode != "poser" else 0}
     r = rng.random()
     nops = rng.randint(3, 5) if r < 0.3 else rng.randint(5, 8) if r < 0.75 else rng.randint(8, 12)
     if tier == "thorough" and rng.random() < 0.25:
@@ -768,6 +769,15 @@ def gen_op(rng, wd: World, swarm, step, script):
             if nset < 1 or w["mode"] == "preger":
                 continue
             return _poser_op(rng, wd)
+        if k == "branch_copy":
+            if not mem:
+                continue
+            i0 = rng.choice(mem)
+            cls0 = w["algs"][i0]["cls"]
+            p0 = w["algs"][i0]["params"]
+            if p0 is None:
+                continue
+            return {"op": "branch_copy", "setup": si, "cls": cls0, "params": copy.deepcopy(p0), "preproc": rng.random() < 0.4}
         if k == "recreate":
             free = [i for i, st_ in enumerate(wd.st) if st_.added_to is None and w["algs"][i].get("name") != "spare"]
             if not free or not any(st_.ran for st_ in wd.st):
@@ -1211,6 +1221,36 @@ def apply_op(wd: World, op, step):
         outcome = _do_poser(wd, op, step)
     elif k == "bare_gate":
         outcome = _do_bare_gate(wd, op, step)
+    elif k == "branch_copy":
+        # the user branches off a setup with copy.copy (a shallow copy: a new setup object sharing the attribute objects
+        # of the original - legal, every setup method re-binds attributes instead of mutating them), works on the branch
+        # and comes back: the original must not have noticed
+        si = op["setup"]
+        setup = wd.setups[si]
+        reg_before = [(n_, id(o_)) for n_, o_ in (getattr(setup, "algorithms", {}) or {}).items()]
+        try:
+            br = copy.copy(setup)
+            cls = _classes()[op["cls"]]
+            extra = cls(name="branch_only", **copy.deepcopy(op["params"]))
+            br.add_algorithms(extra)
+            if op.get("preproc"):
+                br.detrend_data()
+                br.add_algorithms(cls(name="branch_only_2", **copy.deepcopy(op["params"])))
+            try:
+                br.run_by_name("branch_only")
+            except Exception:
+                pass
+        except Exception as e:
+            wd.violate("gate.add_raises", step, f"working on a shallow copy of a setup raised {type(e).__name__}: {e}")
+            return "exc"
+        reg_after = [(n_, id(o_)) for n_, o_ in (getattr(setup, "algorithms", {}) or {}).items()]
+        wd.inc("probe.worked_on_a_shallow_copy_of_a_setup")
+        if reg_after != reg_before:
+            wd.violate("iso.registry_changed", step,
+                       f"adding algorithms to a shallow copy of setup {si} changed the ORIGINAL's registry: "
+                       f"{[n_ for n_, _ in reg_before]} -> {[n_ for n_, _ in reg_after]}")
+            return outcome
+        del br, extra
     elif k == "recreate":
         # the user builds the algorithm object anew (re-executed notebook cell): same class, same arguments, constructed NOW -
         # after whatever ran before. Only for an object that is not registered anywhere at the moment.
